@@ -4,14 +4,20 @@
    (Model/Parser.v), for every Unicode classification U and every extension set:
      - the lexer inverts the concatenation of well-formed tokens under a decidable adjacency
        condition (C01_lexer_roundtrip and the adjacency examples);
-     - numbers: naturals, decimals, fractions, mixed numbers, with blanks and comments at
-       the optional positions, are read back exactly, incl. the u32 bound (C01_natural_roundtrip,
+     - numbers: naturals, decimals, fractions, mixed numbers, with blanks and comments at the
+       optional positions, are read back exactly, incl. the u32 bound (C01_natural_roundtrip,
        C01_number_roundtrip, C01_number_u32_bound);
-     - quantities `{ = value % unit }`: lock, number / range / words, unit, blanks and comments
-       at every optional position, are read back without diagnostic and without moving the
-       enclosing parser (C01_value_roundtrip).
-   Stated, not proved (monitored on the implementation by checks/c01.py on every run):
-   C01_component_statement, C01_full_statement.
+     - quantities `{ = value % unit }` in every spelling (C01_value_roundtrip);
+     - components: ingredient, cookware, timer; braces / blank braces / single word; alias; note
+       (C01_component_roundtrip_partial: modifier characters and `&(..)` data are not covered);
+     - steps: text pieces and components, wrapped and commented (C01_step_roundtrip);
+     - blocks: metadata line, section line, step block through parse_block and the end-of-block
+       check (C01_block_roundtrip_partial: `>` text blocks not covered);
+     - documents: the whole event stream, given that the block splitter cuts at the printed
+       blocks (C01_events_roundtrip_partial, via C14_full_blocks).
+   C01_full_statement (documents printed with separators, no splitting hypothesis) is stated,
+   not proved.  The recipe level (analysis pass) is monitored on the implementation by
+   checks/c01.py on every run.
    The printers (Model/Printer.v) are definitions of these statements, not models of Rust code. *)
 From CL Require Import Base.StrLemmas Model.Lexer Model.Parser Proofs.LexerProofs Model.Printer Proofs.RoundTrip
   Proofs.RoundTripComp Proofs.RoundTripDoc.
@@ -220,7 +226,6 @@ Definition C01_full_statement : Prop :=
   forall (U : N -> ucls) (cfg : pcfg) (d : list block) (sep : nat -> list ptok),
     p_strict_escape cfg = false ->
     Forall (fun b => block_ok cfg b = true /\ sec_trail_ok b) d -> seps_ok d sep 0 ->
-    (forall items, In (BkStep items) d -> kind_in KNewline (print_items items) = false \/ True) ->
     parse_frontmatter cfg (unlex (print_doc d sep 0)) = None ->
     adjacent_ok U (print_doc d sep 0) = true ->
     exists evs, events U cfg (unlex (print_doc d sep 0)) = Done evs /\
@@ -321,9 +326,9 @@ Proof.
   split; [vm_compute; reflexivity|]. split; [vm_compute; reflexivity|]. split; [|vm_compute; reflexivity].
   assert (E : MetaIterProofs.blocks (place 0 doc1_toks)
               = [place 0 (print_block (BkMeta [sp; wd [107]] [sp; wd [118]]));
-                 place 7 (print_block (BkSection 0 [sp; wd [65]] 0 []));
-                 place 11 (print_block (BkStep step1));
-                 place 68 (print_block (BkStep [IText [wd [66]]]))]) by (vm_compute; reflexivity).
+                 place 8 (print_block (BkSection 0 [sp; wd [65]] 0 []));
+                 place 12 (print_block (BkStep step1));
+                 place 90 (print_block (BkStep [IText [wd [66]]]))]) by (vm_compute; reflexivity).
   rewrite E. repeat constructor; eexists; reflexivity.
 Qed.
 
